@@ -572,6 +572,11 @@ func init() {
 		return IfaceV{typ: types.NewPointer(rt.Type()), val: PtrV{obj: o}}, nil
 	})
 
+	reg("crypto/internal/fips140.getIndicator", func(in *Interp, g *Goroutine, fn *ssa.Function, args []Value) (Value, *tailCall) {
+		return in.tt.Const(8, 0), nil
+	})
+	reg("crypto/internal/fips140.setIndicator", func(in *Interp, g *Goroutine, fn *ssa.Function, args []Value) (Value, *tailCall) { return nil, nil })
+
 	// ----- os / time / misc -----
 	reg("os.Getenv", func(in *Interp, g *Goroutine, fn *ssa.Function, args []Value) (Value, *tailCall) {
 		return concStr(""), nil
